@@ -39,6 +39,9 @@ def run(tier, seed):
             seen.add(k)
             uniq.append(s)
     wsprops.sweep('C05', res, m0, uniq, cfgs, 'sweep')
+    # the hand-picked series (several failing patches, failures behind renames, ...) with the parallel driver under the other serial
+    # order of the workers as well: which worker reports its failure first must not matter
+    wsprops.sweep('C05', res, m0, tq.special_series(m0), [{'backup': 'never', 'threads': t, 'quiet': True, 'policy': 'high'} for t in (2, 3)], 'special_series_other_worker_order')
     # how the workspace is addressed must not matter: current directory instead of -d, another patch directory (-p),
     # thread count from RAPIDQUILT_THREADS instead of --threads
     addr = [{'backup': 'always', 'threads': 1, 'quiet': True, 'no_d': True}, {'backup': 'never', 'threads': 2, 'quiet': True, 'no_d': True},
